@@ -14,4 +14,16 @@ CHECKS = {
   "design_ref": "DESIGN.md section 3 C20",
   "note": "Trusted: the extractor (cgstatic), Python ast; counts abstracted to 0..K with K above every integer constant in the guards; Circuit.type raising KeyError on a typeless node.",
  },
+ "C19": {
+  "technique": "static: interprocedural effect / alias / freshness dataflow over ast (parameter-part tags, per-function summaries to a fixpoint over the resolved call graph)",
+  "text": "Purity and return-freshness are decided for every public function of tx, props, sat, io, utils, logic, the parsers and every read-only Circuit/BlackBox method: no effect (direct or through any resolved callee, on normal or raising paths) on the circuit object, graph, node views/attribute dicts or registry of a Circuit/graph parameter, and nothing returned aliases them; the derived Circuit mutator table equals the documented one. Sound modulo the stated networkx copy facts and absence of reflection (checked).",
+  "design_ref": "DESIGN.md section 2 E2, section 3 C19",
+  "note": "Trusted: cgstatic's abstract interpreter; library tables (which networkx/dict/set methods mutate, which copy); node attribute values immutable; BlackBox objects shared by design. A call that passes parameter state to an unresolved callee is ANALYSIS-ERROR, not a pass.",
+ },
+ "C07": {
+  "technique": "static: guard + mutation-statement extraction from circuit.py tabulated over finite abstract domains; writer-site allow-table; syntax-directed check-before-mutate ordering walk",
+  "text": "For connect, add, uid and set_type every abstract call state (types x existing fan-in/fan-out x argument shapes x flags) is tabulated: a call whose post-state would break a wiring invariant raises ValueError having added no edge, accepted calls leave a legal post-state with edges in the right direction, uid never returns a used name. Raw graph/registry writers in class Circuit are confined to an allow-table; in add/add_blackbox/add_subcircuit/fill_blackbox no explicit-raise-capable point follows an edge-adding point (known findings listed). The invariant over arbitrary call histories is the inductive consequence and is argued, not mechanised.",
+  "design_ref": "DESIGN.md section 3 C07",
+  "note": "Trusted: cgstatic's extractor and model circuit; networkx add_node/add_edges_from/update semantics; implicit exceptions (KeyError on a missing node in set_output) are outside the ordering rule; callers editing c.graph directly are out of scope.",
+ },
 }
